@@ -174,9 +174,23 @@ def standard_configs(ctx, fields=None, small=(1, 2, 3), big=(4, 8, 16, 33, 64, 6
             if ctx.thorough or i == 0 or n == 2:
                 cfg.append((n, p, E.D(n)))
         for n in big:
-            if ctx.thorough or (i == 0 and n in (8, 65)):
+            if ctx.thorough or (i == 0 and n == 8):
                 cfg.append((n, p, E.lattice(n)))
     return cfg
+
+
+def wide_values65():
+    nib = sorted(E.nibble_patterns(65))
+    return sorted({0, 1, -1, 2 ** 64 - 1, 2 ** 64, 2 ** 64 + 1, -(2 ** 64), 2 ** 65 - 1, 2 ** 65 + 1, nib[0], -nib[-1], nib[1]})
+
+
+def wide_sweep(ctx, oracle_path, modes, include_assert=True):
+    """Quick tier: bitlength 65 (beyond the 64-bit word) on its boundary lattice, integer / boolean programs only
+    (the thorough tier has 33, 64, 65 and 128 with every program in standard_configs)."""
+    if ctx.thorough:
+        return
+    vals = wide_values65()
+    sweep(ctx, E.depth1_programs(include_fxp=False, include_assert=include_assert), [(65, REC.BN128, vals)], oracle_path, modes=modes)
 
 
 # ------------------------------------------------------------------------------------------------
